@@ -1791,12 +1791,12 @@ class SSHOpenSSHCertificateV01(SSHOpenSSHCertificate):
     )
 
     _user_extension_encoders = (
+        ('no-touch-required',       SSHOpenSSHCertificate._encode_bool),
         ('permit-X11-forwarding',   SSHOpenSSHCertificate._encode_bool),
         ('permit-agent-forwarding', SSHOpenSSHCertificate._encode_bool),
         ('permit-port-forwarding',  SSHOpenSSHCertificate._encode_bool),
         ('permit-pty',              SSHOpenSSHCertificate._encode_bool),
-        ('permit-user-rc',          SSHOpenSSHCertificate._encode_bool),
-        ('no-touch-required',       SSHOpenSSHCertificate._encode_bool)
+        ('permit-user-rc',          SSHOpenSSHCertificate._encode_bool)
     )
 
     _user_option_decoders = {
